@@ -38,7 +38,7 @@ ASSUMPTIONS = [
     "registry membership may change only as specified for detach / replace (C03's subject) and is not part of the frame",
 ]
 TYPECHECK_OK = True  # every generated value conforms to its annotation: some shards run with RUNTIME_TYPE_CHECK on
-MUST_SEE = ["equal_node_of_redefined_class_constructed", "one_byte_ids", "replace_with_child_field_changes", "membership_checked_around_detach_or_replace", "init_false_child_fields", "registry_membership_checked", "tagless_payload_read_while_alive", "origin_algebra_on_node_origins", "comparisons_with_equal_but_distinct_origin_objects", "compiled_xpath_reused", "mutable_container_in_property", "list_valued_tuple_fields", "hash_churn_rounds", "copy_protocol_ops", "digest_size_switches", "ops", "frames_checked", "raising_ops", "watched_writes_on_new_nodes", "setattr_rejected", "delattr_rejected", "repo_tests_contract_evaluations", "deserialize_registry_hits", "failing_replace_on_suffix_twin", "transform_returns_existing_node", "transform_rebuilds_equal_node"]
+MUST_SEE = ["dump_of_younger_twin_loaded", "equal_node_of_redefined_class_constructed", "one_byte_ids", "replace_with_child_field_changes", "membership_checked_around_detach_or_replace", "init_false_child_fields", "registry_membership_checked", "tagless_payload_read_while_alive", "origin_algebra_on_node_origins", "comparisons_with_equal_but_distinct_origin_objects", "compiled_xpath_reused", "mutable_container_in_property", "list_valued_tuple_fields", "hash_churn_rounds", "copy_protocol_ops", "digest_size_switches", "ops", "frames_checked", "raising_ops", "watched_writes_on_new_nodes", "setattr_rejected", "delattr_rejected", "repo_tests_contract_evaluations", "deserialize_registry_hits", "failing_replace_on_suffix_twin", "transform_returns_existing_node", "transform_rebuilds_equal_node"]
 CONFIG = {
     "quick": {"shards": 16, "histories": 30, "ops": 35, "watchdog_s": 600},
     "thorough": {"shards": 32, "histories": 200, "ops": 60, "watchdog_s": 3400},
@@ -611,6 +611,51 @@ def histories(ctx, U, state, take_frame, diff_frame):
             config.ID_DIGEST_SIZE = rng.choice([s_ for s_ in (4, 8, 16) if s_ != config.ID_DIGEST_SIZE])
             ctx.count("digest_size_switches")
 
+        def op_load_dump_of_younger_twin():
+            # a dump written elsewhere, in which the tree was the younger of two equal trees (ids with suffix _1), is read
+            # here; then equal trees are built: the loaded nodes keep their ids and their places in the registry
+            cands = [h for h in handles if id(h) in spec_of and "_" not in h.id]
+            if not cands:
+                return
+            n = rng.choice(cands)
+            sp_ = spec_of[id(n)]
+            payload = n.as_dict()
+
+            def suffix(d):
+                if isinstance(d, dict):
+                    if isinstance(d.get("id"), str) and "content_id" in d and "_" not in d["id"]:
+                        d["id"] = d["id"] + "_1"
+                    for v in d.values():
+                        suffix(v)
+                elif isinstance(d, list):
+                    for v in d:
+                        suffix(v)
+
+            suffix(payload)
+            C = type(n)
+            objs = list(reachable(U, [n]).values())
+            if len({o.id for o in objs}) != len(objs) or any("_" in o.id for o in objs):
+                return  # (a forged suffix would run into the ids of twins inside the tree)
+            n.detach()
+            handles[:] = [h for h in handles if h is not n]
+            del objs
+            try:
+                r = C.as_obj(payload)
+            except Exception:  # noqa: BLE001
+                return
+            loaded = list(reachable(U, [r]).values())
+            handles.append(r)
+            ctx.count("dump_of_younger_twin_loaded")
+            was_member = {id(x) for x in loaded if ASTNode.get_any(x.id) is x}  # (a forged id may name a live twin: then that tree came back)
+            fresh = [build(U, sp_), build(U, sp_)]
+            lost = [type(x).__name__ for x in loaded if id(x) in was_member and ASTNode.get_any(x.id) is not x]
+            if lost and __import__("os").environ.get("VERIF_DEBUG"):
+                print("DEBUG", str(payload)[:600], [(type(x).__name__, x.id, type(ASTNode.get_any(x.id)).__name__, getattr(ASTNode.get_any(x.id), "id", None)) for x in loaded], [[y.id for y in reachable(U, [f_]).values()] for f_ in fresh], config.ID_DIGEST_SIZE, file=__import__("sys").stderr)
+            if lost:
+                ctx.violation("frame", f"building equal trees next to a tree loaded from a dump (ids with collision suffix) took {len(lost)} loaded node(s) out of the registry", {"classes": sorted(set(lost))[:5]})
+            for f_ in fresh:
+                f_.detach()
+
         redef = {}
 
         def op_construct_redefined_class():
@@ -646,7 +691,7 @@ def histories(ctx, U, state, take_frame, diff_frame):
             finally:
                 config.ID_DIGEST_SIZE = was
 
-        ops = [op_construct_redefined_class, op_tiny_digest, op_config, op_copy, op_list_valued, op_origin_algebra, op_compare_twins_with_distinct_origin_objects, op_traverse, op_tree, op_xpath, op_pattern, op_visit, op_duplicate, op_replace_ok, op_replace_fail, op_detach, op_twins, op_serialize, op_serialize, op_compare, op_rich]
+        ops = [op_load_dump_of_younger_twin, op_construct_redefined_class, op_tiny_digest, op_config, op_copy, op_list_valued, op_origin_algebra, op_compare_twins_with_distinct_origin_objects, op_traverse, op_tree, op_xpath, op_pattern, op_visit, op_duplicate, op_replace_ok, op_replace_fail, op_detach, op_twins, op_serialize, op_serialize, op_compare, op_rich]
         snap_extra = {}
         if case % 2 == 0:
             from vlib.universe import remodelled_class
@@ -661,7 +706,7 @@ def histories(ctx, U, state, take_frame, diff_frame):
             state["pre"] = set(snap)
             # registry membership of every pre-existing node: only detach / replace (and the harness' own detaching) may change it
             # (the ops narrow this themselves: exempt = the nodes whose membership the operation is specified to change)
-            state["membership_may_change"] = op.__name__ in ("op_detach", "op_replace_ok", "op_replace_fail", "op_twins")
+            state["membership_may_change"] = op.__name__ in ("op_detach", "op_replace_ok", "op_replace_fail", "op_twins", "op_load_dump_of_younger_twin")
             state["exempt"] = set()
             member = {k: (ASTNode.get_any(v[0].id) is v[0]) for k, v in snap.items()}
             del state["hits"][:]
